@@ -43,6 +43,54 @@ type Fault struct {
 	K      int `json:"k"`    // 0-based index of the write within the run
 	Kind   int `json:"kind"` // Fault*
 	Prefix int `json:"prefix,omitempty"`
+	// Boundary >= 1 selects the prefix symbolically: the Boundary-th PEM block
+	// boundary of the content being written (1 = end of the hash line, 2.. =
+	// end of each block, clipped to the last) plus Delta bytes.
+	Boundary int `json:"boundary,omitempty"`
+	Delta    int `json:"delta,omitempty"`
+}
+
+// Boundaries returns the offsets after the hash line and after each PEM block.
+func Boundaries(content []byte) []int {
+	var out []int
+	if len(content) > 0 && content[0] == '#' {
+		if i := indexByte(content, '\n'); i >= 0 {
+			out = append(out, i+1)
+		}
+	}
+	off := 0
+	for {
+		i := indexOf(content[off:], []byte("-----END "))
+		if i < 0 {
+			break
+		}
+		j := indexByte(content[off+i:], '\n')
+		if j < 0 {
+			out = append(out, len(content))
+			break
+		}
+		off = off + i + j + 1
+		out = append(out, off)
+	}
+	return out
+}
+
+func indexByte(b []byte, c byte) int {
+	for i, x := range b {
+		if x == c {
+			return i
+		}
+	}
+	return -1
+}
+
+func indexOf(b, sub []byte) int {
+	for i := 0; i+len(sub) <= len(b); i++ {
+		if string(b[i:i+len(sub)]) == string(sub) {
+			return i
+		}
+	}
+	return -1
 }
 
 // Died is panicked by WriteFile to model process death; drive recovers it.
@@ -162,8 +210,21 @@ func (w *World) WriteFile(name string, content []byte) error {
 		return nil
 	}
 	p := ft.Prefix
+	if ft.Boundary >= 1 {
+		bs := Boundaries(content)
+		if len(bs) > 0 {
+			i := ft.Boundary - 1
+			if i >= len(bs) {
+				i = len(bs) - 1
+			}
+			p = bs[i] + ft.Delta
+		}
+	}
 	if p > len(content) {
 		p = len(content)
+	}
+	if p < 0 {
+		p = 0
 	}
 	switch ft.Kind {
 	case FaultErrNoWrite:
